@@ -266,24 +266,55 @@ def _occ_pair(s, P, Rc):
     if p is None or r is None:
         return False, "occurrence precision/recall are not mean(max(., axis=k))"
 
+    def root(a):
+        return a.a[1] if a.op in ("loop", "loopvar") else None
+
     def layer(m):
-        # O_PR[:, :, L][np.ix_(rows, cols)]
-        if m.op == "sub" and m.a[0].op == "sub" and m.a[0].a[1].op == "tuple" and len(m.a[0].a[1].a) == 3:
-            L = m.a[0].a[1].a[2]
-            if L.op == "const":
-                return int(L.a[0]), m.a[1], m.a[0].a[0]
+        """M[np.ix_(rows, cols)] with M = O_PR[:, :, L] (one 3-D array, two layers) or M = a 2-D array of its own
+        -> ((array variable, L or None), index term)"""
+        if m.op != "sub":
+            return None
+        M, ix = m.a
+        if M.op == "sub" and M.a[1].op == "tuple" and len(M.a[1].a) == 3 and M.a[1].a[2].op == "const" and all(z.op == "slice" for z in M.a[1].a[:2]):
+            return (root(M.a[0]), int(M.a[1].a[2].a[0])), ix
+        if root(M) is not None:
+            return (root(M), None), ix
         return None
 
     lp, lr = layer(p[0]), layer(r[0])
-    if lp is None or lr is None:
-        return False, "layers of O_PR not recognised"
-    # the two layers themselves: layer 0 = mean(max(s, axis=0)), layer 1 = mean(max(s, axis=1))
+    if lp is None or lr is None or lp[0][0] is None or lr[0][0] is None:
+        return False, "layers of the occurrence matrix not recognised"
+    # the two layers themselves: the precision layer = mean(max(s, axis=0)), the recall layer = mean(max(s, axis=1)),
+    # stored at the same [i, j] under the same condition
     stores = {}
     for m in s.by_kind("mutate"):
-        if m.how == "setitem" and m.key.op == "tuple" and len(m.key.a) == 3 and m.key.a[2].op == "const":
-            stores[int(m.key.a[2].a[0])] = _reduce_axis(m.val, "np.mean", "np.max")
-    inner = stores.get(0) is not None and stores.get(1) is not None and stores[0][0] is stores[1][0] and stores[0][1] == 0 and stores[1][1] == 1
-    # rows and columns are the two plain columns of one index table: np.ix_(X[:, 0], X[:, 1])
+        if m.how == "setitem" and m.key.op == "tuple" and m.root is not None:
+            base = m.root
+            if len(m.key.a) == 3 and m.key.a[2].op == "const":
+                k = (base, int(m.key.a[2].a[0]))
+                cell = m.key.a[:2]
+            elif len(m.key.a) == 2:
+                k = (base, None)
+                cell = m.key.a
+            else:
+                continue
+            stores.setdefault(k, []).append((_reduce_axis(m.val, "np.mean", "np.max"), tuple(cell), m.pc))
+    sp, sr = stores.get(lp[0]), stores.get(lr[0])
+    inner = (
+        lp[0] != lr[0]
+        and sp is not None
+        and sr is not None
+        and len(sp) == 1
+        and len(sr) == 1
+        and sp[0][0] is not None
+        and sr[0][0] is not None
+        and sp[0][0][0] is sr[0][0][0]
+        and (sp[0][0][1], sr[0][0][1]) == (0, 1)
+        and all(a is b for a, b in zip(sp[0][1], sr[0][1]))
+        and sp[0][2] == sr[0][2]
+    )
+    # rows and columns: the two plain columns of one index table, np.ix_(X[:, 0], X[:, 1]), or two lists that
+    # collect (i, j) in lockstep
     ix = lp[1]
     cols_ok = False
     if ix.op == "call" and call_name(ix) == "np.ix_" and len(ix.a[1]) == 2:
@@ -297,10 +328,20 @@ def _occ_pair(s, P, Rc):
         x0, k0 = col(a0)
         x1, k1 = col(a1)
         cols_ok = x0 is not None and x0 is x1 and (k0, k1) == (0, 1)
+        if not cols_ok and root(a0) is not None and root(a1) is not None and root(a0) != root(a1):
+            app = {}
+            for m in s.by_kind("mutate"):
+                if m.how == "method:append" and m.root is not None:
+                    app.setdefault(m.root, []).append(m)
+            r0, r1 = app.get(root(a0), []), app.get(root(a1), [])
+            if len(r0) == 1 and len(r1) == 1 and r0[0].pc == r1[0].pc and sp and r0[0].pc == sp[0][2]:
+                v0 = r0[0].val.a[0] if r0[0].val.op == "tuple" and len(r0[0].val.a) == 1 else r0[0].val
+                v1 = r1[0].val.a[0] if r1[0].val.op == "tuple" and len(r1[0].val.a) == 1 else r1[0].val
+                cols_ok = v0 is sp[0][1][0] and v1 is sp[0][1][1]
     if not cols_ok:
         return False, "the relevant rows/columns are not the two plain columns of one (reference index, estimate index) table: %s - a transformation of one side only (de-duplication, sorting) weights precision and recall differently" % tm.show(ix, 3)
-    good = lp[0] == 0 and lr[0] == 1 and p[1] == 0 and r[1] == 1 and lp[1] is lr[1] and lp[2] is lr[2] and inner
-    return good, "precision = mean(max(layer0[rel], axis=0)) with layer0 = mean(max(s, axis=0)); recall = the same with layer 1 and axis=1 (found layers %s/%s, axes %s/%s, inner %s)" % (lp[0], lr[0], p[1], r[1], inner)
+    good = p[1] == 0 and r[1] == 1 and lp[1] is lr[1] and inner
+    return good, "precision = mean(max(layerP[rel], axis=0)) with layerP = mean(max(s, axis=0)); recall = the same with the other layer and axis=1 (found layers %s/%s, axes %s/%s, layer stores consistent: %s)" % (lp[0], lr[0], p[1], r[1], inner)
 
 
 def rule_twincall(ctx):
@@ -452,45 +493,57 @@ def rule_amibounds(ctx):
     R = "C06.AMIBOUNDS"
     f = ctx.program.func("segment._adjusted_mutual_info_score", R)
     s = ctx.S.get(f.qual)
-    mins = [c for c in s.calls() if c.callee == "np.minimum" and all(any(x.op == "call" and call_name(x) == "np.resize" for x in tm.walk(a)) for a in c.args[:2])]
-    need(len(mins) == 1 and len(mins[0].args) == 2, R, "_adjusted_mutual_info_score: min(a, b) grid not found")
-    x, y = mins[0].args
-
-    def lay(t):
-        tr = False
-        if t.op == "call" and call_name(t) == "np.transpose" and t.a[1]:
-            tr = True
-            t = t.a[1][0]
-        if not (t.op == "call" and call_name(t) == "np.resize" and len(t.a[1]) == 2 and t.a[1][1].op == "tuple" and len(t.a[1][1].a) == 2):
-            return None
-        marg = t.a[1][0]
+    def marg_axis(t):
+        """the axis a marginal was summed over (1: row marginals a, length shape[0]; 0: column marginals b)"""
         ax = None
-        for z in tm.walk(marg):
+        for z in tm.walk(t):
             if z.op == "call" and call_name(z) == "np.sum":
                 for k, v in z.a[2]:
                     if k == "axis" and v.op == "const":
                         ax = int(v.a[0])
-        dims = []
-        for d in t.a[1][1].a:
-            dims.append(int(d.a[1].a[0]) if d.op == "sub" and d.a[0].op == "attr" and d.a[0].a[1] == "shape" and d.a[1].op == "const" else None)
-        return tr, ax, tuple(dims)
+        return ax
 
-    lx, ly = lay(x), lay(y)
-    good = False
-    why = "layout not recognised: %s / %s" % (tm.show(x, 3), tm.show(y, 3))
-    if lx is not None and ly is not None:
-        # row marginals (sum over axis 1, length R = shape[0]) must vary along axis 0 of an (R, C) grid:
-        # either resize(a, (C, R)).T or an equivalent; column marginals (sum over axis 0) along axis 1: resize(b, (R, C))
-        def ok(l):
-            tr, ax, dims = l
-            if ax == 1:  # a, length shape[0]
-                return tr and dims == (1, 0)
-            if ax == 0:  # b, length shape[1]
-                return (not tr) and dims == (0, 1)
-            return False
+    mins = [c for c in s.calls() if c.callee in ("np.minimum", "np.minimum.outer") and len(c.args) == 2 and all(marg_axis(a) is not None for a in c.args[:2])]
+    need(len(mins) == 1, R, "_adjusted_mutual_info_score: min(a, b) grid not found")
+    x, y = mins[0].args
 
-        good = ok(lx) and ok(ly) and {lx[1], ly[1]} == {0, 1}
-        why = "row marginals are laid out as resize(a, (C, R)).T and column marginals as resize(b, (R, C))" if good else "marginals are laid out as %s and %s (transposed?, summed axis, resize dims): both on the same orientation mis-pairs a_i with b_j" % (lx, ly)
+    def lay(t):
+        """(summed axis of the marginal, grid axis it varies along) or a string saying why the layout is not read"""
+        tr = False
+        if t.op == "call" and call_name(t) == "np.transpose" and t.a[1]:
+            tr = True
+            t = t.a[1][0]
+        ax = marg_axis(t)
+        if t.op == "call" and call_name(t) == "np.resize" and len(t.a[1]) == 2 and t.a[1][1].op == "tuple" and len(t.a[1][1].a) == 2:
+            dims = []
+            for d in t.a[1][1].a:
+                dims.append(int(d.a[1].a[0]) if d.op == "sub" and d.a[0].op == "attr" and d.a[0].a[1] == "shape" and d.a[1].op == "const" else None)
+            own = {1: 0, 0: 1}.get(ax)  # a has shape[0] entries, b has shape[1]
+            # row-major fill: the marginal repeats along the last axis only when the last dimension is its own length
+            if dims[1] != own or dims[0] != 1 - own:
+                return "resize(%s, shape dims %s) does not tile the marginal along one axis" % ("a" if ax == 1 else "b", dims)
+            return ax, (0 if tr else 1)
+        if t.op == "sub" and t.a[1].op == "tuple" and len(t.a[1].a) == 2:
+            k0, k1 = t.a[1].a
+            if k0.op == "slice" and k1.op == "const" and k1.a[0] is None:
+                return ax, (1 if tr else 0)
+            if k1.op == "slice" and k0.op == "const" and k0.a[0] is None:
+                return ax, (0 if tr else 1)
+        return "layout not recognised: %s" % tm.show(t, 3)
+
+    if mins[0].callee == "np.minimum.outer":
+        lx, ly = (marg_axis(x), 0), (marg_axis(y), 1)
+    else:
+        lx, ly = lay(x), lay(y)
+    if isinstance(lx, str) or isinstance(ly, str):
+        bad = lx if isinstance(lx, str) else ly
+        if bad.startswith("layout not recognised"):
+            need(False, R, "_adjusted_mutual_info_score: " + bad)
+        good, why = False, bad
+    else:
+        # row marginals (sum over axis 1) must vary along axis 0 of the (R, C) grid, column marginals along axis 1
+        good = {lx, ly} == {(1, 0), (0, 1)}
+        why = "min(a_i, b_j) grid: the row marginals vary along axis 0 and the column marginals along axis 1" if good else "marginals are laid out as %s and %s (summed axis, grid axis): both on the same orientation, or exchanged, mis-pairs a_i with b_j" % (lx, ly)
     yield ob(R, f, "segment._adjusted_mutual_info_score:limit-grid", good, why, node=mins[0].node)
 
 
